@@ -73,6 +73,11 @@ pub fn alphabet() -> Vec<St> {
     st!("p := x + 1", &["p"], &["x"], false),
     st!("q := y * 2", &["q"], &["y"], false),
     st!("yy := y[2]", &["yy"], &["y"], false),
+    // values whose shape depends on mutable state
+    st!("rg := 1..=x", &["rg"], &["x"], false),
+    st!("rs := x..2..=20", &["rs"], &["x"], false),
+    st!("hy := [y y]", &["hy"], &["y"], false),
+    st!("sy := y'", &["sy"], &["y"], false),
   ]
 }
 
